@@ -387,6 +387,42 @@ def dot_worker(job):
     return st
 
 
+def many_failures_worker(job):
+    """Hundreds of removals that fail in one run (directories kept non-empty by an entry that did not match): the exit status is
+    non-zero however many there are - 255, 256, 257, 512 - and every other matched entry is still removed."""
+    k, counts, seed = job
+    st = Stats()
+    base = common.mkscratch("C10m%d" % k)
+    try:
+        for n in counts:
+            sb = os.path.join(base, "m%d" % n)
+            os.makedirs(os.path.join(sb, "r"))
+            for i in range(n):
+                os.mkdir(os.path.join(sb, "r", "d%04d" % i))
+                open(os.path.join(sb, "r", "d%04d" % i, "keep.txt"), "w").close()
+                open(os.path.join(sb, "r", "d%04d" % i, "gone.tmp"), "w").close()
+            args = [common.FIND, "r", "-mindepth", "1", "(", "-type", "d", "-o", "-name", "*.tmp", ")", "-delete"]
+            rc, out, err, to = common.run_cmd(args, cwd=sb, env=common.clean_env(), timeout=300)
+            st.inc("evaluations")
+            st.inc("runs_with_hundreds_of_failed_removals")
+            st.add("distinct", ("many-failures", n))
+            left = sorted(treegen.snapshot(os.path.join(sb, "r")).keys())
+            want = sorted([""] + ["d%04d" % i for i in range(n)] + ["d%04d/keep.txt" % i for i in range(n)])
+            problems = []
+            if rc == 0 or to:
+                problems.append("exit status %r although %d removals failed" % (rc, n))
+            if err.count(b"\n") < n:
+                problems.append("%d diagnostic lines for %d failed removals" % (err.count(b"\n"), n))
+            if sorted(x for x in left) != sorted(set(want) | set(left)) or any(x.endswith("gone.tmp") for x in left):
+                problems.append("entries left behind: %r" % [x for x in left if x.endswith("gone.tmp")][:5])
+            if problems:
+                st.violate("delete", None, {"args": ["find"] + args[1:], "failed_removals": n, "problems": problems, "exit": rc}, {"args": ["find"] + args[1:], "n": n})
+            common.force_rmtree(sb)
+    finally:
+        common.force_rmtree(base)
+    return st
+
+
 def vanished_worker(job):
     """A matched entry that is gone by the time -delete is evaluated (removed by an earlier action of the same expression):
     the removal fails, so -delete must be false, diagnosed, and make find exit non-zero. Shapes: `E -delete -delete` and
@@ -465,6 +501,8 @@ def run(ctx):
     ctx.pmap(worker, [(k, n // nw, ctx.seed) for k in range(nw)])
     nv = ctx.scale(160, 32000)
     ctx.pmap(vanished_worker, [(k, max(2, nv // nw), ctx.seed) for k in range(nw)])
+    ctx.pmap(many_failures_worker, [(k, c_, ctx.seed) for k, c_ in enumerate([[255], [256], [257], [512], [1], [2, 3], [768, 1024]])])
+    ctx.require("runs_with_hundreds_of_failed_removals", 7)
     ctx.pmap(dot_worker, [(k, ctx.scale(8, 600), ctx.seed) for k in range(nw)])
     ctx.require("runs_with_dot_among_the_starting_points", 50)
     ctx.require("vanished_entries_evaluated", 10)
